@@ -200,11 +200,13 @@ PROPERTIES = {
                       # cursor Min / Max (operations 7, 8) under every load fault, retried on the same cursor, on the height-3 tree
                       H("HarnessC12a", b(N=7, PRE=0, F=5, OPMASK=384, NOPROBE=1, CONCRETEKEYS=1, LRULER=1), sample_every=20),
                       # cursor Forward / Backward (operations 9, 10) from the entry a fault-free Ceil(k) found, under every load fault, retried on the same cursor
-                      H("HarnessC12a", b(N=7, PRE=0, F=5, OPMASK=1536, NOPROBE=1, CONCRETEKEYS=1, LRULER=1), sample_every=20), H("HarnessC12a", b(N=3, PRE=0, F=3, OPMASK=1536, NOPROBE=1), sample_every=50)],
+                      H("HarnessC12a", b(N=7, PRE=0, F=5, OPMASK=1536, NOPROBE=1, CONCRETEKEYS=1, LRULER=1), sample_every=20), H("HarnessC12a", b(N=3, PRE=0, F=3, OPMASK=1536, NOPROBE=1), sample_every=50),
+                      # through a node cache that starts empty after the re-load: what a failed load leaves in the cache is met again by the reads that follow
+                      H("HarnessC12a", b(N=3, PRE=0, F=3, CACHE=1, OPMASK=127, NOPROBE=1), sample_every=200)],
             # (N=3,PRE=1,F=4 did not finish within 25 minutes together with the rest: not registered)
             "thorough": [H("HarnessC12a", b(N=3, PRE=0, F=5), sample_every=1000), H("HarnessC12a", b(N=2, PRE=1, F=3), sample_every=1000)],
         },
-        "must_reach": ["C12.contents-unchanged", "C12.size-unchanged", "C12.retry-result", "C12.contents-after-retry", "C12.retried-navigation-position", "C12.retried-step-position"],
+        "must_reach": ["C12.contents-unchanged", "C12.size-unchanged", "C12.retry-result", "C12.contents-after-retry", "C12.retried-navigation-position", "C12.retried-step-position", "C12.readable-after-error"],
         "bounds_statement": "tree of N ascending entries persisted and re-loaded (every node behind a Load), PRE successful modifications (dirty in-memory path above persisted children), then one of Insert/Delete/Get/Iter/Clone/Cursor(Ceil,Forward,Backward)/DiffIter/Cursor.Min/Cursor.Max/one Cursor.Forward or Backward step from the entry Ceil(k) found, with a fault at the n-th Persist.Load or the n-th KeyCompare call of that operation (n < F); after an error: Size, Height, full Iter, Get(probe) against the pre-operation model, then the same call retried without the fault",
         "outside": ["faults in Marshal (only reached from MakeRoot with this key type)", "two simultaneous faults", "panics raised by validateNode when KeyCompare fails (the statement is about calls that return an error)"],
         "assumptions": COMMON_ASSUMPTIONS,
